@@ -128,3 +128,8 @@ func VerifDocsFileOf(base string) string {
 	s.openDocs()
 	return VerifFS.Opened
 }
+
+func vNoSync(string) {}
+
+// Glob lists the model's files (the loader globs the whole data directory).
+func (v *VFS) Glob(string) ([]string, error) { return v.List(), nil }
